@@ -3,11 +3,27 @@ module verif
 go 1.26.0
 
 require (
+	github.com/anishathalye/porcupine v1.3.0
 	github.com/bluenviron/gortsplib/v5 v5.0.0
+	github.com/bluenviron/mediacommon/v2 v2.9.3
+	github.com/google/uuid v1.6.0
+	github.com/gorilla/websocket v1.5.3
 	github.com/pion/rtcp v1.2.17
 	github.com/pion/rtp v1.10.5
+	github.com/pion/sdp/v3 v3.0.19
+	github.com/pion/srtp/v3 v3.0.13
+	golang.org/x/net v0.58.0
 )
 
-require github.com/pion/randutil v0.1.0 // indirect
+require (
+	github.com/asticode/go-astikit v0.30.0 // indirect
+	github.com/asticode/go-astits v1.16.0 // indirect
+	github.com/pion/logging v0.2.4 // indirect
+	github.com/pion/randutil v0.1.0 // indirect
+	github.com/pion/transport/v4 v4.1.0 // indirect
+	github.com/stretchr/testify v1.12.1 // indirect
+	go.yaml.in/yaml/v3 v3.0.5 // indirect
+	golang.org/x/sys v0.47.0 // indirect
+)
 
 replace github.com/bluenviron/gortsplib/v5 => /repo
